@@ -19,8 +19,6 @@ func vDataLen(tier, min int) int {
 		return 2
 	}
 	switch tier {
-	case 9:
-		return vr.Param(1) // one large data field (HBigCodec: the upper end of the domain)
 	case 0:
 		return vr.IntOf(min, 3)
 	case 1:
@@ -30,7 +28,7 @@ func vDataLen(tier, min int) int {
 }
 
 func vSPILen(tier int) int {
-	if tier < 0 || tier == 9 {
+	if tier < 0 {
 		return 4
 	}
 	switch tier {
@@ -208,6 +206,17 @@ func vGenEAPPayload(tier int) *PayloadEap {
 
 // VGenPayload builds one payload of IKE payload type kind (33..48, not 46).
 func VGenPayload(kind int, tier int) IKEPayload {
+	// tier >= 1000: fixed shape with one data field of tier-1000 octets (the large end of the domain)
+	big := -1
+	if tier >= 1000 {
+		big, tier = tier-1000, -1
+	}
+	dataLen := func(min int) int {
+		if big >= 0 {
+			return big
+		}
+		return vDataLen(tier, min)
+	}
 	slice := 0
 	if tier >= 10 {
 		slice, tier = tier/10, tier%10
@@ -216,25 +225,25 @@ func VGenPayload(kind int, tier int) IKEPayload {
 	case TypeSA:
 		return vGenSA(tier, slice)
 	case TypeKE:
-		return &KeyExchange{DiffieHellmanGroup: vr.U16(), KeyExchangeData: vr.Bytes(vDataLen(tier, 1))}
+		return &KeyExchange{DiffieHellmanGroup: vr.U16(), KeyExchangeData: vr.Bytes(dataLen(1))}
 	case TypeIDi:
-		return &IdentificationInitiator{IDType: vr.U8(), IDData: vr.Bytes(vDataLen(tier, 1))}
+		return &IdentificationInitiator{IDType: vr.U8(), IDData: vr.Bytes(dataLen(1))}
 	case TypeIDr:
-		return &IdentificationResponder{IDType: vr.U8(), IDData: vr.Bytes(vDataLen(tier, 1))}
+		return &IdentificationResponder{IDType: vr.U8(), IDData: vr.Bytes(dataLen(1))}
 	case TypeCERT:
-		return &Certificate{CertificateEncoding: vr.U8(), CertificateData: vr.Bytes(vDataLen(tier, 1))}
+		return &Certificate{CertificateEncoding: vr.U8(), CertificateData: vr.Bytes(dataLen(1))}
 	case TypeCERTreq:
-		return &CertificateRequest{CertificateEncoding: vr.U8(), CertificationAuthority: vr.Bytes(vDataLen(tier, 1))}
+		return &CertificateRequest{CertificateEncoding: vr.U8(), CertificationAuthority: vr.Bytes(dataLen(1))}
 	case TypeAUTH:
-		return &Authentication{AuthenticationMethod: vr.U8(), AuthenticationData: vr.Bytes(vDataLen(tier, 1))}
+		return &Authentication{AuthenticationMethod: vr.U8(), AuthenticationData: vr.Bytes(dataLen(1))}
 	case TypeNiNr:
-		return &Nonce{NonceData: vr.Bytes(vDataLen(tier, 0))}
+		return &Nonce{NonceData: vr.Bytes(dataLen(0))}
 	case TypeN:
 		n := &Notification{ProtocolID: vr.U8(), NotifyMessageType: vr.U16()}
 		if k := vSPILen(tier); k > 0 {
 			n.SPI = vr.Bytes(k)
 		}
-		n.NotificationData = vr.Bytes(vDataLen(tier, 0))
+		n.NotificationData = vr.Bytes(dataLen(0))
 		return n
 	case TypeD:
 		d := &Delete{ProtocolID: vr.U8()}
@@ -260,7 +269,7 @@ func VGenPayload(kind int, tier int) IKEPayload {
 		}
 		return d
 	case TypeV:
-		return &VendorID{VendorIDData: vr.Bytes(vDataLen(tier, 0))}
+		return &VendorID{VendorIDData: vr.Bytes(dataLen(0))}
 	case TypeTSi:
 		return &TrafficSelectorInitiator{TrafficSelectors: vGenTS(tier)}
 	case TypeTSr:
@@ -273,7 +282,7 @@ func VGenPayload(kind int, tier int) IKEPayload {
 		}
 		for i := 0; i < n; i++ {
 			c.ConfigurationAttribute = append(c.ConfigurationAttribute,
-				&IndividualConfigurationAttribute{Type: vr.U16() & 0x7fff, Value: vr.Bytes(vDataLen(tier, 0))})
+				&IndividualConfigurationAttribute{Type: vr.U16() & 0x7fff, Value: vr.Bytes(dataLen(0))})
 		}
 		return c
 	case TypeEAP:
@@ -281,7 +290,7 @@ func VGenPayload(kind int, tier int) IKEPayload {
 	case TypeSK:
 		// an (opaque) Encrypted payload as it appears in a chain; its NextPayload field is bookkeeping
 		// that names whatever follows on the wire
-		return &Encrypted{NextPayload: vr.U8(), EncryptedData: vr.Bytes(1 + vDataLen(tier, 0))}
+		return &Encrypted{NextPayload: vr.U8(), EncryptedData: vr.Bytes(1 + dataLen(0))}
 	}
 	panic("VGenPayload: unsupported kind")
 }
